@@ -51,6 +51,11 @@ CHECKS["C10"] = dict(level="model_checking",
   note="Spec validated against native Go range on every case (exit 2 on disagreement; the native map traces must be accepted too). Trusted: TLC, the fixed driver program that interprets mutation scripts.",
   design="7 C10, 3.7")
 
+CHECKS["C06"] = src("MC_Cons.tla gives big-step meaning to consumer functions that pull and range over two live iterators (range := / = with guarded break/continue/return, nesting, a body re-declaring the loop variable, pulls before/inside/after loops); the recorder is shared with the generators, so the number of advances the generator side sees is part of the observation (no over-pulling after break/return). TLC enumerates all consumers up to the size bound x tapes; each is compiled in the same processed file as the generators by the real tool and run; configurations vary where the iterator lives (variable, struct field, slice, map, closure result, function parameter) and how generators are declared (function, method, generic), which exercises the Iter -> Iterator type replacement at every syntactic position (a missed one is a build failure = violation).",
+  "Bounded: consumers up to 3/4 statements over two fixed generators. Native reference = Go's own range-over-func over an adaptor of the pulled iterator.", "7 C06")
+CHECKS["C14"] = src("MC_Sched.tla: K iterators (same generator function several times, different functions, recursive delegation, closure state) each in its own world, TLC enumerates EVERY interleaving with M advances each and checks the invariant that per-iterator observations equal the solo run (that is what independence means); every complete schedule is replayed on the real compiled generators on one goroutine, and every tuple is consumed with one goroutine per iterator in a driver built with -race (GORACE=halt_on_error); a differing per-iterator trace or a reported race is a violation.",
+  "The data-race half is decided by Go's race detector during replay -- TLA+ has no Go memory model. Bounded: K=2,M=3 and K=3,M=2 (quick); K=2,M=4 and K=3,M=3 (thorough: 1680 schedules per tuple).", "7 C14")
+
 NOT_YET = {}
 
 def main():
